@@ -26,8 +26,8 @@ func sha(b ...[]byte) []byte {
 	return h.Sum(nil)
 }
 
-func myLeaf(item []byte) []byte     { return sha([]byte{0}, item) }
-func myInner(l, r []byte) []byte    { return sha([]byte{1}, l, r) }
+func myLeaf(item []byte) []byte  { return sha([]byte{0}, item) }
+func myInner(l, r []byte) []byte { return sha([]byte{1}, l, r) }
 func mySplit(n int64) int64 {
 	k := int64(1)
 	for k*2 < n {
